@@ -350,7 +350,7 @@ def obligations(tier):
                     covers = []
                     if keep > 0:
                         covers = ["rotated"] + (["oldest-generation-discarded"] if keep <= 2 or prefill else [])
-                    out.append(Ob(name, h, params, budget=400 if quick else 1500, covers=covers,
+                    out.append(Ob(name, h, params, budget=600 if quick else 3000, covers=covers,
                                   bounds=dict(ticks=T, runs_per_tick="0..2 (symbolic; 0 = a tick passes without a logger run)", stamp_increment="1 per tick",
                                               cycle_period="1..%d (symbolic)" % params["pmax"],
                                               flush_period="1..%d (symbolic)" % params["pmax"],
@@ -363,7 +363,7 @@ def obligations(tier):
             params = dict(keep=keep, reuse=reuse, T=T, nmax=2, dmax=1, pmax=2, smax=40, crash=80, restart=False,
                           prefill=prefill)
             name = "crash/keep=%d/%s" % (keep, "reuse" if reuse else "unique")
-            out.append(Ob(name, h, params, budget=400 if quick else 1500,
+            out.append(Ob(name, h, params, budget=600 if quick else 3000,
                           covers=["died"] + (["died-after-rotation-began"] if keep else []),
                           bounds=dict(ticks=T, runs_per_tick="0..2 (symbolic)", cycle_period="1..2 (symbolic)",
                                       flush_period="1..2 (symbolic)", size_threshold="0..40 (symbolic)",
